@@ -250,7 +250,7 @@ func (d *Dumper) ValueLit(in any, optFns ...ValueLitOptFn) string {
 		return buf.String()
 	case reflect.Int, reflect.Int8, reflect.Int16, reflect.Int64:
 		return fmt.Sprintf("%d", rv.Int())
-	case reflect.Uint, reflect.Uint16, reflect.Uint32, reflect.Uint64, reflect.Uint8:
+	case reflect.Uint, reflect.Uint16, reflect.Uint32, reflect.Uint64, reflect.Uint8, reflect.Uintptr:
 		return fmt.Sprintf("%d", rv.Uint())
 	case reflect.Int32:
 		if b, ok := rv.Interface().(rune); ok {
